@@ -270,50 +270,74 @@ def check_symmetrise(g, mats, m, shape, rows, labs, stratum, lat):
             fail(f"meta:{name}", f"{name} does not keep phase / coordinate format", rep)
 
 
+ANGLE_ND = [((2, 3), (3,)), ((3,), (2, 3)), ((2, 1), (3,)), ((2, 1), (1, 3)), ((2, 2), (2, 2)), ((2, 3), (1,)),
+            ((1,), (2, 2)), ((2, 1, 2), (3, 1))]
+ANGLE_BAD = [((3,), (2,)), ((2,), (4,)), ((2, 3), (2,)), ((3, 2), (2, 3))]
+
+
 def check_angle(g, mats, r, lat, ph):
     gname = g.name
-    kind = r.choice(["single", "single", "same", "same", "self1"])
+    kind = r.choice(["single", "single", "same", "same", "self1", "nd", "nd", "incompatible"])
     fmt = r.choice(["uvw", "hkl", "xyz"])
     n = r.choice([1, 2, 3, 4])
 
-    def mk(k):
+    def mk(shape):
+        k = int(np.prod(shape))
         rows = [gen_vector(g, r, r.choice(["general", "axis", "mirror"])) for _ in range(k)]
-        mm = Miller(xyz=rows, phase=ph)
+        mm = Miller(xyz=np.array(rows, float).reshape(tuple(shape) + (3,)), phase=ph)
         mm.coordinate_format = fmt
         return mm, rows
     if kind == "single":
-        a, ar = mk(n)
-        b, br = mk(1)
+        sa, sb = (n,), (1,)
     elif kind == "same":
-        a, ar = mk(max(n, 2))
-        b, br = mk(max(n, 2))
+        sa = sb = (max(n, 2),)
+    elif kind == "self1":
+        sa, sb = (1,), (max(n, 2),)
+    elif kind == "nd":
+        sa, sb = r.choice(ANGLE_ND)
     else:
-        a, ar = mk(1)
-        b, br = mk(max(n, 2))
-    rep = {"group": gname, "self": ar, "other": br, "fmt": fmt, "kind": kind}
+        sa, sb = r.choice(ANGLE_BAD)
+    a, ar = mk(sa)
+    b, br = mk(sb)
+    rep = {"group": gname, "self": ar, "other": br, "self_shape": list(sa), "other_shape": list(sb), "fmt": fmt,
+           "kind": kind}
+    case = {"k": "ang", "group": gname, "ops": ops_json(g), "sshape": list(sa), "oshape": list(sb),
+            "self": a.data.reshape(-1, 3).tolist(), "other": b.data.reshape(-1, 3).tolist()}
+    st(f"angle/{kind}")
     try:
         got = a.angle_with(b, use_symmetry=True)
     except Exception as e:  # noqa
-        fail(f"angle:raises:{kind}", f"angle_with(use_symmetry=True) raises {type(e).__name__}", rep)
+        if kind == "incompatible" and isinstance(e, ValueError):
+            # as without symmetry: shapes that cannot be broadcast are rejected
+            case.update({"raised": True, "rshape": [], "out": []})
+            cases.append(case)
+        else:
+            fail(f"angle:raises:{kind}", f"angle_with(use_symmetry=True) raises {type(e).__name__}", rep)
         return
-    other2 = b.symmetrise(unique=True)
-    cases.append({"k": "ang", "group": gname, "self": a.data.reshape(-1, 3).tolist(),
-                  "other2": other2.data.reshape(-1, 3).tolist(), "out": np.asarray(got).reshape(-1).tolist()})
-    st(f"angle/{kind}")
-    A = np.asarray(ar, float)
-    B = np.asarray(br, float)
-    try:
-        bs = np.broadcast_shapes(A.shape[:-1], B.shape[:-1])
-    except ValueError:
+    got = np.asarray(got)
+    case.update({"raised": False, "rshape": list(got.shape), "out": got.reshape(-1).tolist()})
+    cases.append(case)
+    if kind == "incompatible":
+        fail("angle:incompatible-shapes", f"angle_with(use_symmetry=True) of shapes {sa} and {sb}, which cannot be "
+                                          f"broadcast, returns an array of shape {got.shape} (group {gname})", rep)
         return
+    A = np.asarray(ar, float).reshape(tuple(sa) + (3,))
+    B = np.asarray(br, float).reshape(tuple(sb) + (3,))
+    bs = np.broadcast_shapes(A.shape[:-1], B.shape[:-1])
     Ab = np.broadcast_to(A, bs + (3,))
     Bb = np.broadcast_to(B, bs + (3,))
-    ref = np.array([min(ang(Ab[i], w) for w in mats @ Bb[i]) for i in range(bs[0])])
-    got = np.asarray(got)
+    ref = np.zeros(bs)
+    for ix in np.ndindex(*bs):
+        ref[ix] = min(ang(Ab[ix], w) for w in mats @ Bb[ix])
     if got.shape != ref.shape or np.max(np.abs(got - ref)) > 5e-6:
-        sig = {"single": "angle:single", "same": "angle:elementwise", "self1": "angle:elementwise"}[kind]
+        sig = {"single": "angle:single", "same": "angle:elementwise", "self1": "angle:elementwise",
+               "nd": "angle:broadcast"}[kind]
         fail(sig, f"angle_with(use_symmetry=True) = {got.tolist()} but the minimum over the other vector's orbit "
                   f"is {ref.tolist()} (group {gname}, self {A.shape[:-1]}, other {B.shape[:-1]})", rep)
+    # without symmetry the same shape comes out
+    plain = np.asarray(a.angle_with(b))
+    if plain.shape != got.shape:
+        fail("angle:shape", f"angle_with(use_symmetry=True).shape {got.shape} != angle_with().shape {plain.shape}", rep)
 
 
 def check_unique(g, mats, m, shape, rows, stratum, lat):
@@ -433,7 +457,7 @@ def fixed():
         g = [x for x in GROUPS if x.name == gname][0]
         mult[gname] = int(Miller(xyz=[v], phase=Phase(point_group=g)).multiplicity[0])
     witness["threshold_mult"] = mult
-    # (b) multiplicity of a 2-d object (Coq: C10_multiplicity_nd_refuted)
+    # (b) multiplicity of a 2-d object (repaired defect; Coq: C10_multiplicity_nd, C10_multiplicity_nd_nonvacuous)
     ph = Phase(point_group="m-3m")
     rows = [[1, 0, 0], [1, 1, 0], [1, 1, 1], [1, 2, 3], [0, 0, 1], [1, 1, 2]]
     m = Miller(xyz=np.array(rows, float).reshape(2, 3, 3), phase=ph)
@@ -443,7 +467,8 @@ def fixed():
     st("fixed/mult-nd")
     check_symmetrise(g, group_mats(g), m, (2, 3), [[float(x) for x in v] for v in rows], ["axis"] * 6, "fixed-nd",
                      ph.structure.lattice)
-    # (c) angle_with(use_symmetry) with two other vectors (Coq: C10_angle_elementwise_refuted)
+    # (c) angle_with(use_symmetry) with two other vectors (repaired defect; Coq: C10_angle_elementwise,
+    #     C10_angle_elementwise_nonvacuous)
     a = Miller(xyz=[[1, 0, 0], [1, 1, 0]], phase=ph)
     b = Miller(xyz=[[5, 0, 1], [1, 1, 1]], phase=ph)
     got = a.angle_with(b, use_symmetry=True)
